@@ -6,6 +6,7 @@
 (*   latest  the clock reading `now` and, for several (level, n), the expected Latest        *)
 (*   query   the expected Total() and the expected Range(a, b) of every JUDGED candidate      *)
 (*           range (aligned to the level that retains a; see TSOracle)                      *)
+(* Times may lie exactly on bucket boundaries (the oracle's bucket rule decides).           *)
 (* Every history ends with a query.            Times are in units; the header gives the     *)
 (* level sizes in units, the number of buckets and the length of a unit in milliseconds so   *)
 (* that the driver can build the series (custom small one through init, or the package's     *)
@@ -26,9 +27,11 @@ SizesSmall == <<4, 12>>
 
 \* time jumps (units of 500 ms): same bucket, neighbours, the edges of the 64-bucket and
 \* 60-bucket windows of the first levels, minutes, hours, days, months; forwards and backwards
-DeltasTS == LET P == {0, 2, 20, 126, 128, 130, 1282, 7682, 172800, 20000000}
+\* boundary-exact: with 2 units per finest bucket the pending anchor is maxT or maxT + 1, so
+\* 0, +-1, +-2, +-3, +-4 reach the anchor itself, one unit and one whole bucket either side of it
+DeltasTS == LET P == {0, 1, 2, 3, 4, 20, 21, 126, 127, 128, 129, 1282, 7682, 172800, 20000000}
             IN P \cup {0 - d : d \in P}
-DeltasMH == LET P == {0, 2, 58, 118, 120, 122, 7078, 7198, 7202, 100000}
+DeltasMH == LET P == {0, 1, 2, 3, 4, 58, 118, 119, 120, 121, 7078, 7199, 7200, 7201, 100000}
             IN P \cup {0 - d : d \in P}
 
 VARIABLES hist, kind
@@ -44,7 +47,7 @@ Val == IF Len(obs) < 20 THEN 2 ^ Len(obs) ELSE (Len(obs) % 7) + 1
 
 Cands == IF Abs THEN Times
          ELSE IF ~seen THEN {Start}
-         ELSE {x \in {maxT + d : d \in Deltas} : x >= 1 /\ Interior(x)}
+         ELSE {x \in {maxT + d : d \in Deltas} : x >= 1}
 
 GInit == \E k \in Kinds :
             /\ kind = k
